@@ -134,7 +134,7 @@ class Gen:
             params = ['x']
         else:
             params = self.routines[f][0]
-        return ('call', f, [self.rvalue(depth, simple=True) for _ in params])
+        return ('call', f, [self.rvalue(depth, simple=True, allow_neg=True) for _ in params])
 
     def expr(self, depth, logical=False):
         r = self.rng
@@ -167,12 +167,16 @@ class Gen:
                  ('bin', r.choice(CMPS), self.expr(depth - 1), self.expr(depth - 1)))
         return ('expr', e)
 
-    def rvalue(self, depth=2, simple=False):
+    def rvalue(self, depth=2, simple=False, allow_neg=False):
+        # a negative literal is only understood where a value is mandatory (register setting,
+        # assignment, argument, condition, loop bound); elsewhere the generator writes {-v}
         r = self.rng
         k = r.random()
         if k < 0.35 or (simple and k < 0.6):
             v = self.number(0, 100)
-            return ('num', -v) if (r.random() < 0.1 and v != 0) else ('num', v)
+            if r.random() < 0.1 and v != 0:
+                return ('num', -v) if allow_neg else ('expr', ('un', '-', ('num', v)))
+            return ('num', v)
         if k < 0.5 and self.numeric_vars():
             return ('var', r.choice(self.numeric_vars()))
         if k < 0.55:
@@ -274,13 +278,13 @@ class Gen:
         reg = r.choice(['hue', 'saturation', 'brightness', 'kelvin', 'duration', 'time', 'hue',
                         'brightness'])
         if reg == 'hue':
-            rv = self.rvalue() if r.random() < 0.5 else ('num', self.number(0, 360))
+            rv = self.rvalue(allow_neg=True) if r.random() < 0.5 else ('num', self.number(0, 360))
         elif reg == 'kelvin':
             rv = ('num', r.choice([1500, 2700, 3500, 6500, 9000]))
         elif reg in ('duration', 'time'):
             rv = ('num', r.choice([0, 0, 1, 2, 0.5, 1.25, 10])) if r.random() < 0.7 else self.rvalue(1)
         else:
-            rv = self.rvalue() if r.random() < 0.5 else ('num', self.number(0, 100))
+            rv = self.rvalue(allow_neg=True) if r.random() < 0.5 else ('num', self.number(0, 100))
         return [('setreg', reg, rv)]
 
     def assign(self):
@@ -290,7 +294,7 @@ class Gen:
             name = r.choice(pool)
         else:
             name = self.fresh('x')
-        rv = self.rvalue()
+        rv = self.rvalue(allow_neg=True)
         stmt = ('assign', name, rv)
         if self.locals is not None:
             if name not in self.locals and name not in self.globals:
@@ -458,8 +462,8 @@ class Gen:
             return self.assign()
         f = r.choice(names)
         params = self.routines[f][0]
-        return [('call', f, [self.rvalue(depth - 1, simple=True) for _ in params],
-                 r.random() < 0.3)]
+        return [('call', f, [self.rvalue(depth - 1, simple=True, allow_neg=True) for _ in params],
+                 False)]
 
     def print_stmt(self):
         r = self.rng
@@ -808,3 +812,227 @@ def generate(rng, pop=None, size=12, max_depth=3, features=None):
     g = Gen(rng, pop, max_depth=max_depth, size=size, features=features)
     prog = g.program()
     return prog, pop
+
+
+# ---------------------------------------------------------------- S-expressions for the Lean model
+BUILTIN_PARAMS = {'round': ['x'], 'trunc': ['x'], 'floor': ['x'], 'ceil': ['x'], 'sqrt': ['x'],
+                  'sin': ['x'], 'cos': ['x'], 'tan': ['x'], 'asin': ['x'], 'acos': ['x'],
+                  'atan': ['x'], 'cycle': ['theta'], 'random': ['min', 'max']}
+
+
+def _atom(s):
+    out = []
+    for ch in s:
+        o = ord(ch)
+        if ch in '%() \t\n\r':
+            out.append('%{:02x}'.format(o))
+        elif o < 32 or o > 126:
+            out.append('%u{{{:x}}}'.format(o))
+        else:
+            out.append(ch)
+    return ''.join(out)
+
+
+def val_atom(v):
+    if v is None:
+        return 'n'
+    if isinstance(v, bool):
+        return 'b:1' if v else 'b:0'
+    if isinstance(v, int):
+        return 'i:{}'.format(v)
+    if isinstance(v, float):
+        n, d = v.as_integer_ratio()
+        return 'f:{}/{}'.format(n, d)
+    if isinstance(v, str):
+        return 's:' + _atom(v.replace('\\', '\\\\').replace('|', '\\p'))
+    raise ValueError(v)
+
+
+class SexpEnv:
+    def __init__(self):
+        self.macros = {}
+        self.routines = dict(BUILTIN_PARAMS)
+
+
+def _lit_expr(v):
+    if isinstance(v, (int, float)) and not isinstance(v, bool) and v < 0:
+        return '(paren (un - (lit {})))'.format(val_atom(-v))
+    return '(lit {})'.format(val_atom(v))
+
+
+def expr_sexp(e, envs):
+    k = e[0]
+    if k == 'num':
+        return _lit_expr(e[1])
+    if k == 'macro':
+        return '(lit {})'.format(val_atom(envs.macros[e[1]]))
+    if k == 'var':
+        return '(var {})'.format(_atom(e[1]))
+    if k == 'reg':
+        return '(reg {})'.format(e[1].upper())
+    if k == 'call':
+        return call_sexp(e, envs)
+    if k == 'un':
+        return '(un {} {})'.format(e[1], expr_sexp(e[2], envs))
+    if k == 'bin':
+        return '(bin {} {} {})'.format(e[1], expr_sexp(e[2], envs), expr_sexp(e[3], envs))
+    if k == 'paren':
+        return '(paren {})'.format(expr_sexp(e[1], envs))
+    raise ValueError(e)
+
+
+def call_sexp(e, envs):
+    params = envs.routines[e[1]]
+    return '(call {} ({}) ({}))'.format(_atom(e[1]), ' '.join(_atom(p) for p in params),
+                                       ' '.join(rv_sexp(a, envs) for a in e[2]))
+
+
+def rv_sexp(rv, envs):
+    k = rv[0]
+    if k == 'num':
+        return '(lit {})'.format(val_atom(rv[1]))
+    if k == 'str':
+        return '(lit {})'.format(val_atom(rv[1]))
+    if k == 'macro':
+        return '(lit {})'.format(val_atom(envs.macros[rv[1]]))
+    if k == 'var':
+        return '(var {})'.format(_atom(rv[1]))
+    if k == 'reg':
+        return '(reg {})'.format(rv[1].upper())
+    if k == 'expr':
+        return '(expr {})'.format(expr_sexp(rv[1], envs))
+    if k == 'call':
+        return call_sexp(rv, envs)
+    raise ValueError(rv)
+
+
+def opt_rv(rv, envs):
+    return 'none' if rv is None else rv_sexp(rv, envs)
+
+
+def range_sexp(r, envs):
+    if r is None:
+        return 'none'
+    return '({} {})'.format(rv_sexp(r[0], envs), opt_rv(r[1], envs))
+
+
+def name_sexp(ns, envs):
+    if ns[0] == 'str':
+        return '(str {})'.format(_atom(ns[1]))
+    if ns[0] == 'macro':
+        return '(str {})'.format(_atom(envs.macros[ns[1]]))
+    return '(var {})'.format(_atom(ns[1]))
+
+
+def with_sexp(w, envs):
+    if w is None:
+        return 'none'
+    if w[0] == 'from':
+        return '(from {} {} {})'.format(_atom(w[1]), rv_sexp(w[2], envs), rv_sexp(w[3], envs))
+    return '(cycle {} {})'.format(_atom(w[1]), opt_rv(w[2], envs))
+
+
+def pattern_atom(text):
+    import vmwire
+    from bardolph.lib.time_pattern import TimePattern
+    return vmwire.pattern_alts(TimePattern.from_string(text))
+
+
+def block_sexp(stmts, envs):
+    return '(' + ' '.join(stmt_sexp(s, envs) for s in stmts) + ')'
+
+
+def stmt_sexp(s, envs):
+    k = s[0]
+    if k == 'setreg':
+        return '(setreg {} {})'.format(s[1].upper(), rv_sexp(s[2], envs))
+    if k == 'units':
+        return '(units {})'.format(s[1].upper())
+    if k == 'wait':
+        return '(wait)'
+    if k == 'break':
+        return '(break)'
+    if k == 'get':
+        return '(get {})'.format(rv_sexp(s[1], envs))
+    if k == 'timeat':
+        return '(timeat {})'.format(' '.join(pattern_atom(p) for p in s[1]))
+    if k == 'assign':
+        return '(assign {} {})'.format(_atom(s[1]), rv_sexp(s[2], envs))
+    if k == 'define_macro':
+        envs.macros[s[1]] = s[2][1]
+        return '(defmacro {} {})'.format(_atom(s[1]), val_atom(s[2][1]))
+    if k == 'define':
+        envs.routines[s[1]] = list(s[2])
+        return '(define {} ({}) {})'.format(_atom(s[1]), ' '.join(_atom(p) for p in s[2]),
+                                           block_sexp(s[3], envs))
+    if k == 'call':
+        return call_sexp(s, envs)
+    if k == 'return':
+        return '(return {})'.format(opt_rv(s[1], envs))
+    if k == 'if':
+        return '(if {} {} {})'.format(rv_sexp(s[1], envs), block_sexp(s[2], envs),
+                                      'none' if s[3] is None else block_sexp(s[3], envs))
+    if k == 'print':
+        return '(print {})'.format(rv_sexp(s[1], envs))
+    if k == 'println':
+        return '(println {})'.format(opt_rv(s[1], envs))
+    if k == 'printf':
+        return '(printf {} ({}))'.format(_atom(s[1]), ' '.join(rv_sexp(a, envs) for a in s[2]))
+    if k == 'stage':
+        return '(stage {} {} {})'.format(range_sexp(s[1], envs), range_sexp(s[2], envs),
+                                         '1' if s[3] else '0')
+    if k == 'action':
+        if s[2] == 'all':
+            return '(actall {})'.format(s[1])
+        if s[2] == 'default':
+            return '(setdefault)'
+        return '(action {} ({}))'.format(s[1], ' '.join(operand_sexp(o, envs) for o in s[2]))
+    if k == 'repeat':
+        return '(repeat {} {})'.format(hdr_sexp(s[1], envs), block_sexp(s[2], envs))
+    raise ValueError(s)
+
+
+def operand_sexp(op, envs):
+    k = op[0]
+    if k in ('light', 'group', 'location'):
+        return '({} {})'.format(k, name_sexp(op[1], envs))
+    if k == 'zone':
+        return '(zone {} {} {})'.format(name_sexp(op[1], envs), rv_sexp(op[2], envs),
+                                        opt_rv(op[3], envs))
+    if k == 'matrix':
+        return '(matrix {} {} {} {})'.format(name_sexp(op[1], envs), range_sexp(op[2], envs),
+                                             range_sexp(op[3], envs), '1' if op[4] else '0')
+    if k == 'matrix_block':
+        return '(matrix_block {} {})'.format(name_sexp(op[1], envs), block_sexp(op[2], envs))
+    raise ValueError(op)
+
+
+def hdr_sexp(h, envs):
+    f = h[0]
+    if f == 'count':
+        return '(count {})'.format(rv_sexp(h[1], envs))
+    if f == 'range':
+        return '(range {} {} {})'.format(_atom(h[1]), rv_sexp(h[2], envs), rv_sexp(h[3], envs))
+    if f == 'interp':
+        return '(interp {} {} {} {})'.format(rv_sexp(h[1], envs), _atom(h[2]), rv_sexp(h[3], envs),
+                                             rv_sexp(h[4], envs))
+    if f == 'cycle':
+        return '(cycle {} {} {})'.format(rv_sexp(h[1], envs), _atom(h[2]), opt_rv(h[3], envs))
+    if f == 'while':
+        return '(while {})'.format(rv_sexp(h[1], envs))
+    if f == 'forever':
+        return '(forever)'
+    if f in ('all', 'groups', 'locations'):
+        return '({} {} {})'.format(f, _atom(h[1]), with_sexp(h[2], envs))
+    if f == 'in':
+        items = []
+        for item in h[1]:
+            rv = ('str', item[1][1]) if item[1][0] == 'str' else item[1]
+            items.append('({} {})'.format(item[0], rv_sexp(rv, envs)))
+        return '(in ({}) {} {})'.format(' '.join(items), _atom(h[2]), with_sexp(h[3], envs))
+    raise ValueError(h)
+
+
+def to_sexp(stmts):
+    envs = SexpEnv()
+    return block_sexp(stmts, envs)
